@@ -22,6 +22,7 @@ CLAUSES = {
     "C09.history": 50000,      # live objects: after every in-place change every statistic == definition on the CURRENT raw calls
     "C09.derived": 25000,      # matrices returned by select/delete/insert/adjoin/concat/copy (+ in-place generic forms): class, ploidy, statistics
     "C09.aliasing": 150000,    # returned arrays share no memory with the object; overwriting them leaves calls, labels, statistics intact
+    "C09.scale": 1500,         # large matrices (counts / products / product sums beyond 2**15, 2**16, 2**24, 2**31, 2**32): every statistic == definition, dtype, projection
     "C09.genotyping": 25000,   # every genotyping protocol x mask x invert: calls, labels, ploidy, statistics, masked phased == masked unphased
 }
 HOOKS_REQUIRED = [
@@ -1421,8 +1422,336 @@ def one_gt(ctx, c):
             judge_projection(ctx, SP, SU, None, icls, icls, dict(W, invert=inv), coords)
 
 
+# ------------------------------------------------------------------ C09.scale: large matrices
+# The definitions hold "for matrices of any number of taxa, any number of markers".  Counts, products of counts and
+# their sums over loci silently wrap when an implementation accumulates them in a narrow type; none of this shows below
+# a few hundred taxa x a few dozen loci.  A small number of dedicated cases per run is sized so that the quantities an
+# implementation may form cross 2**15 / 2**16 (16-bit counts), 2**24 (float32 integers), 2**31 / 2**32 (32-bit products
+# and product sums):
+#   "taxa x loci"  : 2400-6400 chromosome copies x hundreds to thousands of loci - sum over loci of c*(N-c) just above 2**31 or 2**32
+#   "taxa 2**15"   : ploidy*ntaxa just above 2**15, 1-6 loci      "taxa 2**16": ntaxa itself just above 2**15 .. 2**16
+#   "taxa product" : ntaxa > 2**16 and a single c*(N-c) above 2**31 (a locus at frequency 1/2), N**2 > 2**32
+#   "loci"         : 2**15 .. 2**16+ loci x 1-30 taxa (locus indices / sums over loci of small terms)
+#   "copies 2**24" : more than 2**24 chromosome copies at one locus (count == copies or copies - 1)
+# Every statistic (default dtype and one requested dtype, narrow ones preferred) of the phased matrix and of its unphased
+# projection is judged against oracle.LargeRef (int64 counts cross-checked by a second route, then exact integers).
+L_CLASSES = ["taxa x loci, product sum above 2**31", "taxa x loci, product sum above 2**32", "copies above 2**15", "ntaxa above 2**15",
+             "ntaxa above 2**16, one product above 2**31", "loci above 2**15", "loci above 2**16", "copies above 2**24"]
+L_SCHEDULE = [0, 1, 2, 4, 5, 3, 1, 0, 6, 4, 7, 1,      # class of case c = L_SCHEDULE[c % 24]; every class in every run of >= 24
+              0, 1, 2, 4, 5, 3, 1, 0, 6, 4, 2, 1]      # cases; the 2**24 class (tens of MB per array) once per 24 cases
+L_COUNT_DT = ["int16", "uint16", "int32", "uint32", "float32", "int64", int, numpy.int32, "float64", "bool"]
+L_HOOKS = [
+    "large: sum over loci of count*(copies-count) >= 2**31", "large: sum over loci of count*(copies-count) >= 2**32",
+    "large: one locus with count*(copies-count) >= 2**31", "large: copies**2 >= 2**32",
+    "large: an allele count > 2**15", "large: an allele count > 2**16", "large: a genotype class count > 2**15",
+    "large: ntaxa > 2**16", "large: nvrnt > 2**15", "large: nvrnt > 2**16", "large: an allele count > 2**24",
+    "large: locus fixed at 1 with copies > 2**15", "large: non-diploid", "large: unphased subject via DenseUnphasedGenotyping",
+    "large: unphased subject built directly",
+]
+HOOKS_REQUIRED += L_HOOKS
+
+
+def gen_large(g, cls):
+    """Phased int8 calls (P, n, m) of one size class; generated column-wise from float32 uniforms (memory)."""
+    P = 2 if g.random() < 0.6 else int(g.choice([1, 3, 4, 6]))
+    pats = None
+    if cls in (0, 1):
+        if P > 4:
+            P = 4
+        n = int(g.integers(2400, 6401)) // P; N = P * n          # 2400-6400 chromosome copies
+        target = (2 ** 31 if cls == 0 else 2 ** 32) * float(g.uniform(1.08, 1.5))
+        style = ["spread", "half", "mixed"][int(g.integers(3))]
+        per = {"spread": 0.18, "half": 0.2495, "mixed": 0.15}[style] * N * N     # expected c*(N-c) per locus (slightly low)
+        m = int(target / per) + 1
+        if style == "spread":
+            f = g.uniform(0.05, 0.95, m)
+        elif style == "half":
+            f = numpy.full(m, 0.5)
+        else:
+            f = g.uniform(0.05, 0.95, m); f[g.random(m) < 0.08] = 1.0; f[g.random(m) < 0.08] = 0.0
+        mat = (g.random((P, n, m), dtype=numpy.float32) < f.astype(numpy.float32)).astype("int8")
+        return P, n, m, mat, style
+    if cls in (2, 3, 4, 7):
+        if cls == 2:
+            n = (2 ** 15) // P + int(g.integers(1, 3000))
+        elif cls == 3:
+            n = 2 ** 15 + int(g.integers(1, 8000))
+        elif cls == 4:
+            n = 2 ** 16 + int(g.integers(2, 12000))
+        else:
+            P = 2 if g.random() < 0.7 else 4
+            n = (2 ** 24) // P + int(g.integers(1, 40000))
+        m = 1 if cls == 7 else int(g.integers(2, 7))
+        pats = [["half", "random", "fixed1", "fixed0", "singleton", "allbutone", "allhet", "homonly"][int(g.choice(8, p=[0.22, 0.22, 0.16, 0.08, 0.08, 0.08, 0.08, 0.08]))]
+                for _ in range(m)]
+        if cls == 7:      # a count above 2**24 (odd counts are not float32 numbers there)
+            pats[0] = ["fixed1", "allbutone"][int(g.integers(2))]
+        else:             # one fixed locus (count == copies, one genotype class holds every taxon); class 4: one locus at 1/2
+            two = g.permutation(m)[:2]
+            pats[int(two[0])] = "fixed1"
+            if cls == 4:
+                pats[int(two[1])] = "half"
+        mat = numpy.empty((P, n, m), dtype="int8")
+        for j, pat in enumerate(pats):
+            if pat == "random":
+                mat[:, :, j] = g.random((P, n), dtype=numpy.float32) < numpy.float32(g.uniform(0.3, 0.7))
+            elif pat == "half":
+                a = numpy.zeros(P * n, dtype="int8"); a[: (P * n) // 2] = 1; g.shuffle(a); mat[:, :, j] = a.reshape(P, n)
+            elif pat == "allhet":
+                mat[:, :, j] = 0; mat[: max(P // 2, 1), :, j] = 1
+            elif pat == "homonly":
+                mat[:, :, j] = (g.random(n, dtype=numpy.float32) < numpy.float32(0.5))[None, :]
+            else:
+                mat[:, :, j] = gen_locus(g, P, n, pat)
+        return P, n, m, mat, ",".join(pats)
+    # many loci, few taxa
+    m = (2 ** 15 if cls == 5 else 2 ** 16) + int(g.integers(1, 5000))
+    n = int(g.integers(1, 31))
+    f = g.random(m); f[g.random(m) < 0.1] = 1.0; f[g.random(m) < 0.1] = 0.0
+    mat = (g.random((P, n, m), dtype=numpy.float32) < f.astype(numpy.float32)).astype("int8")
+    return P, n, m, mat, "random with fixed loci"
+
+
+def representable(kind, want, exp):
+    """Can ``want`` hold the statistic exactly?  (otherwise only dtype and shape are asserted, as for every lossy request)"""
+    if kind == "freq":
+        return want.kind == "f"
+    if want.kind == "b":
+        return kind == "flag"
+    if kind == "flag":
+        return True
+    top = int(numpy.max(exp)) if numpy.size(exp) else 0
+    if want.kind in "iu":
+        return top <= numpy.iinfo(want).max
+    return top <= 2 ** (numpy.finfo(want).nmant + 1)
+
+
+def judge_large(ctx, S, L, g, W, coords):
+    """Every statistic of one large subject against oracle.LargeRef (numpy comparisons; same relations as judge_default)."""
+    X, icls = "C09.scale", S.icls
+    P, n, m, N = L.P, L.n, L.m, L.N
+
+    def chk(name, cond, site, rel, **wit):
+        ok = ctx.check(X, bool(cond), site, rel, icls, witness=dict(W, subject=S.kind, **wit), coords=coords)
+        if not ok:
+            S.bad.add(name); S.reported.add(name)
+        return ok
+
+    def same_int(out, exp):
+        return isinstance(out, numpy.ndarray) and out.shape == exp.shape and out.dtype.kind in "iub" and numpy.array_equal(out, exp)
+
+    def follows(name, out):
+        """``name`` deviates, the object's afreq is already reported, and ``out`` is exactly what follows from that afreq."""
+        if "afreq" not in S.reported or not isinstance(S.res.get("afreq"), numpy.ndarray):
+            return False
+        p = S.res["afreq"]
+        try:
+            if name == "maf":
+                good = fdiff(out, numpy.minimum(p, 1.0 - p)) <= 1e-15
+            elif name == "afixed":
+                good = same_int(out, (p == 0.0) | (p == 1.0))
+            elif name == "apoly":
+                good = same_int(out, (p > 0.0) & (p < 1.0))
+            else:
+                good = numpy.ndim(out) == 0 and abs(float(out) - P / m * float(numpy.sum(p * (1.0 - p)))) <= TOL * max(1.0, P)
+        except Exception:
+            good = False
+        if good:
+            S.bad.add(name); ctx.ok(X)
+            ctx.sumnote("%s deviates only as a consequence of the reported afreq violation" % name)
+        return good
+
+    order = list(STATS)
+    g.shuffle(order)
+    order.sort(key=lambda s: 0 if s in ("afreq", "gtcount") else 1)
+    for name in order:
+        kind = KIND[name]
+        exp = L.expected(name)
+        site, out, ok = do_call(ctx, S, name, (), {}, "default dtype", W, coords)
+        if ok:
+            S.res[name] = out
+            if kind == "count":
+                good = chk(name, same_int(out, exp), site, {"tacount": "== per-taxon allele count", "acount": "== allele count",
+                                                            "gtcount": "== genotype class counts (ploidy+1 classes, column sums ntaxa)"}[name],
+                           got=out, expected=exp)
+            elif kind == "flag":
+                if not (same_int(out, exp) or follows(name, out)):
+                    chk(name, False, site, "== (count == 0 or count == ploidy*n)" if name == "afixed" else "== (0 < count < ploidy*n)",
+                        got=out, expected=exp, counts=L.c_np, copies=N)
+                else:
+                    ctx.ok(X)
+            else:
+                e = fdiff(out, exp)
+                if name == "meh":
+                    if P != 2:
+                        e = min(e, fdiff(out, L.meh_alt))
+                    if numpy.ndim(out) != 0:
+                        e = float("inf")
+                ctx.maxnote("large: %s |got-exact|" % name, e if e < 1e-3 else 0.0)
+                if e > TOL and name in ("maf", "meh") and follows(name, out):
+                    pass
+                elif chk(name, e <= TOL, site, {"tafreq": "== per-taxon count / ploidy", "afreq": "== count / (ploidy*n)", "maf": "== min(p, 1-p)",
+                                               "meh": "== ploidy/m * sum p(1-p)", "gtfreq": "== class count / ntaxa"}[name],
+                         got=out, expected=exp, err=e, sum_of_count_times_copies_minus_count=L.S if name == "meh" else None):
+                    a = numpy.asarray(out)
+                    if name != "meh":
+                        chk(name, numpy.all((a >= 0.0) & (a <= (0.5 if name == "maf" else 1.0))), site, "in [0,0.5]" if name == "maf" else "in [0,1]", got=out)
+                    if name == "afreq":
+                        chk(name, numpy.array_equal(a == 0.0, L.c_np == 0), site, "== 0.0 iff count == 0", got=out, counts=L.c_np, copies=N)
+                        chk(name, numpy.array_equal(a == 1.0, L.c_np == N), site, "== 1.0 iff count == ploidy*n", got=out, counts=L.c_np, copies=N)
+                    elif name == "tafreq":
+                        chk(name, numpy.array_equal(a == 0.0, L.d == 0) and numpy.array_equal(a == 1.0, L.d == P), site,
+                            "== 0.0 / 1.0 iff taxon count == 0 / ploidy", got=out)
+                    elif name == "maf":
+                        chk(name, numpy.array_equal(a == 0.0, L.fixed), site, "== 0.0 iff locus fixed", got=out, counts=L.c_np, copies=N)
+        # one requested dtype, narrow types preferred for counts
+        pool = {"count": L_COUNT_DT, "flag": FLAG_DT, "freq": FREQ_DT}[kind]
+        dt = pool[int(g.integers(len(pool)))]
+        want = numpy.dtype(dt)
+        poskw = g.random() < 0.5
+        site, out2, ok2 = do_call(ctx, S, name, (dt,) if poskw else (), {} if poskw else {"dtype": dt},
+                                  "%s as %s" % (kind, dtname(dt)), dict(W, requested=dtspell(dt)), coords)
+        if not ok2:
+            continue
+        w2 = dict(requested=dtspell(dt), got=out2, got_dtype=str(getattr(out2, "dtype", type(out2).__name__)))
+        got_dt = getattr(out2, "dtype", None)
+        if not ctx.check(X, got_dt is not None and numpy.dtype(got_dt) == want, site, "result dtype == requested dtype", icls,
+                         witness=dict(W, subject=S.kind, **w2), coords=coords):
+            continue
+        ref = "definition"
+        if name in S.bad and name in S.res:
+            exp = numpy.asarray(S.res[name]); ref = "own default answer"
+            ctx.sumnote("requested-dtype values judged against the object's own (reported) default answer")
+        if not representable(kind, want, exp):
+            ctx.sumnote("lossy dtype requests (only dtype and shape are asserted)")
+            ctx.check(X, numpy.shape(out2) == numpy.shape(exp), site, "shape unchanged by requested dtype", icls,
+                      witness=dict(W, subject=S.kind, **w2), coords=coords)
+        elif kind in ("count", "flag"):
+            ctx.check(X, numpy.shape(out2) == numpy.shape(exp) and numpy.array_equal(out2, numpy.asarray(exp).astype(want)), site,
+                      "values == %s under requested dtype" % ref, icls, witness=dict(W, subject=S.kind, expected=exp, **w2), coords=coords)
+        else:
+            e = fdiff(out2, exp)
+            if name == "meh" and P != 2 and ref == "definition":
+                e = min(e, fdiff(out2, L.meh_alt))
+            ctx.check(X, e <= (TOL if want.itemsize >= 8 else TOL32), site, "values == %s under requested dtype" % ref, icls,
+                      witness=dict(W, subject=S.kind, expected=exp, err=e, **w2), coords=coords)
+    if P == 2:
+        for fmt in FORMATS:
+            site, out, ok = do_call(ctx, S, "mat_asformat", (fmt,), {}, "format " + fmt, W, coords)
+            if not ok:
+                continue
+            key = "mat_asformat" + fmt
+            S.res[key] = out
+            if fmt == "{0,1,2}":
+                good = chk(key, same_int(out, L.d), site, "{0,1,2} == per-taxon allele count", format=fmt, got=out)
+            elif fmt == "{-1,0,1}":
+                good = chk(key, same_int(out, L.c101()), site, "{-1,0,1} == per-taxon allele count - 1", format=fmt, got=out)
+            else:
+                e = fdiff(out, L.cm())
+                good = chk(key, e <= TOL, site, "{-1,m,1} == homozygotes -1/+1, heterozygotes locus mean", format=fmt, got=out, err=e)
+    fx, po = S.res.get("afixed"), S.res.get("apoly")
+    if fx is not None and po is not None:
+        site = "%s~%s" % (site_of(S.obj, "afixed"), site_of(S.obj, "apoly"))
+        try:
+            comp = numpy.shape(fx) == numpy.shape(po) and bool(numpy.all(numpy.asarray(fx).astype(bool) == ~numpy.asarray(po).astype(bool)))
+        except Exception:
+            comp = False
+        if not comp and "afreq" in S.bad and not (S.reported & {"afixed", "apoly"}):
+            ctx.ok(X)
+        else:
+            ctx.check(X, comp, site, "afixed == not apoly", icls, witness=dict(W, subject=S.kind, afixed=fx, apoly=po, counts=L.c_np, copies=N), coords=coords)
+
+
+def one_large(ctx, c):
+    from pybrops.popgen.gmat.DensePhasedGenotypeMatrix import DensePhasedGenotypeMatrix
+    from pybrops.popgen.gmat.DenseGenotypeMatrix import DenseGenotypeMatrix
+    from pybrops.breed.prot.gt.DenseUnphasedGenotyping import DenseUnphasedGenotyping
+    repo_code(ctx)
+    g = ctx.rng("large", c)
+    cls = L_SCHEDULE[c % len(L_SCHEDULE)]
+    icls = "large matrix: " + L_CLASSES[cls]
+    coords = [c, "large"]
+    P, n, m, mat, style = gen_large(g, cls)
+    N = P * n
+    layout = "C"
+    if g.random() < 0.15:
+        mat = numpy.asfortranarray(mat); layout = "fortran"
+    L = O.LargeRef(mat, P, True)
+    ctx.case(icls + "/ploidy %d" % P, P, n, m, style, L.c_np)
+    W = {"ploidy": P, "ntaxa": n, "nvrnt": m, "copies": N, "size_class": L_CLASSES[cls], "locus_style": style, "memory_layout": layout,
+         "allele_counts": L.c_np, "sum over loci of count*(copies-count)": L.S}
+    if c % 6 == 0:
+        ctx.sample({"family": "large", "size_class": L_CLASSES[cls], "ploidy": P, "ntaxa": n, "nvrnt": m, "locus_style": style[:200],
+                    "sum over loci of count*(copies-count)": L.S, "largest allele count": int(L.c_np.max())})
+    cmax, gmax, pmax = int(L.c_np.max()), int(L.gt.max()), max(L.prod)
+    for nm, cond in (("sum over loci of count*(copies-count) >= 2**31", L.S >= 2 ** 31), ("sum over loci of count*(copies-count) >= 2**32", L.S >= 2 ** 32),
+                     ("one locus with count*(copies-count) >= 2**31", pmax >= 2 ** 31), ("copies**2 >= 2**32", N * N >= 2 ** 32),
+                     ("an allele count > 2**15", cmax > 2 ** 15), ("an allele count > 2**16", cmax > 2 ** 16), ("a genotype class count > 2**15", gmax > 2 ** 15),
+                     ("ntaxa > 2**16", n > 2 ** 16), ("nvrnt > 2**15", m > 2 ** 15), ("nvrnt > 2**16", m > 2 ** 16), ("an allele count > 2**24", cmax > 2 ** 24),
+                     ("locus fixed at 1 with copies > 2**15", N > 2 ** 15 and cmax == N), ("non-diploid", P != 2)):
+        if cond:
+            ctx.hook("large: " + nm)
+    try:
+        ph = DensePhasedGenotypeMatrix(mat)
+    except Exception as e:
+        ctx.raised("DensePhasedGenotypeMatrix.__init__", e)
+        return
+    raw = mat.copy()
+    dmat = mat.sum(0, dtype="int8")
+    un = None
+    via = (c % 2 == 0)
+    if via:
+        site = "DenseUnphasedGenotyping.genotype"
+        ctx.ok("C09.returns")
+        try:
+            un = DenseUnphasedGenotyping().genotype(ph)
+        except Exception as e:
+            ctx.violation("C09.returns", site, "raised %s" % type(e).__name__, icls,
+                          what="%s raised %s: %s" % (site, type(e).__name__, str(e)[:160]), witness=W, coords=coords)
+        if un is not None:
+            good = ctx.check("C09.scale", type(un) is DenseGenotypeMatrix and isinstance(un.mat, numpy.ndarray) and un.mat.shape == dmat.shape
+                             and numpy.array_equal(un.mat, dmat) and un.ploidy == P, site,
+                             "unphased calls == per-taxon sum over chromosome copies, ploidy preserved", icls,
+                             witness=dict(W, got=getattr(un, "mat", None), got_ploidy=getattr(un, "ploidy", None)), coords=coords)
+            if good:
+                ctx.hook("large: unphased subject via DenseUnphasedGenotyping")
+            else:
+                un = None; via = False
+    if un is None:
+        try:
+            un = DenseGenotypeMatrix(dmat.copy(), ploidy=P)
+            ctx.hook("large: unphased subject built directly")
+        except Exception as e:
+            ctx.raised("DenseGenotypeMatrix.__init__", e)
+    SP = Subject("DensePhasedGenotypeMatrix", ph, raw)
+    SP.clause, SP.icls = "C09.scale", icls
+    judge_large(ctx, SP, L, g, W, coords)
+    if un is None:
+        return
+    SU = Subject("DenseGenotypeMatrix via DenseUnphasedGenotyping" if via else "DenseGenotypeMatrix built directly", un, dmat.copy())
+    SU.clause, SU.icls = "C09.scale", icls
+    judge_large(ctx, SU, L, g, W, coords)
+    for name in STATS + ["mat_asformat" + f for f in FORMATS]:
+        if name not in SP.res or name not in SU.res:
+            continue
+        a, b = SP.res[name], SU.res[name]
+        meth = name if not name.startswith("mat_asformat") else "mat_asformat"
+        site = "%s~%s" % (site_of(SP.obj, meth), site_of(SU.obj, meth))
+        if name in FLOATS:
+            ok = fdiff(a, b) <= TOL
+        else:
+            ok = numpy.shape(a) == numpy.shape(b) and numpy.array_equal(numpy.asarray(a), numpy.asarray(b))
+        if not ok and (name in SP.bad or name in SU.bad):
+            ctx.ok("C09.scale")
+            ctx.sumnote("phased/unphased mismatch on %s explained by an already reported deviation from the definition" % name)
+            continue
+        ctx.check("C09.scale", ok, site, "phased == unphased projection (%s)" % ("values to 1e-9" if name in FLOATS else "exact"), icls,
+                  what="%s: phased matrix and its unphased projection disagree on %s (%s)" % (site, name, icls),
+                  witness=dict(W, phased=a, unphased=b, unphased_subject=SU.kind), coords=coords)
+
+
 FAMILIES = {"mat": (one_case, 7500, 170000), "hist": (one_history, 1300, 16000),
-            "derive": (one_derive, 1600, 24000), "gt": (one_gt, 700, 10000)}
+            "derive": (one_derive, 1600, 24000), "gt": (one_gt, 700, 10000), "large": (one_large, 24, 192)}
 QUICK_TOTAL, THOROUGH_TOTAL = FAMILIES["mat"][1], FAMILIES["mat"][2]
 
 
